@@ -226,7 +226,13 @@ J_iv_comp(e) ==
       \* (their `total_days == 0` path), the compiled one with the carries of finding C06-rust-cross-zone
       sdo == ~dates /\ ~IsNaive(a) /\ <<a.w[1], a.w[2], a.w[3]>> = <<b.w[1], b.w[2], b.w[3]>>
              /\ OffOf(DT(a.z, a.w, a.f)) # OffOf(DT(b.z, b.w, b.f))
-  IN R(<<e.a.rel, B(fwd), "br", alg.br, B(alg.borrow), "premise", B(premise), "lo", PClass(lo), "hi", PClass(hi), "sameday-offchg",
+      \* the compiled helper converts an end-point to UTC by hand when the zones are named differently (and the offset
+      \* is not zero) or when both end-points share the wall date: "ok" when every such conversion is right, "bad" otherwise
+      sameDay == ~dates /\ <<a.w[1], a.w[2], a.w[3]>> = <<b.w[1], b.w[2], b.w[3]>>
+      Shifts(v) == ~dates /\ ~IsNaive(DT(v.z, v.w, v.f)) /\ ((~samez /\ OffOf(DT(v.z, v.w, v.f)) # 0) \/ sameDay)
+      rshift == IF ~Shifts(a) /\ ~Shifts(b) THEN "-"
+                ELSE IF (Shifts(a) => RustShiftOK(DT(a.z, a.w, a.f))) /\ (Shifts(b) => RustShiftOK(DT(b.z, b.w, b.f))) THEN "ok" ELSE "bad"
+  IN R(<<e.a.rel, B(fwd), "br", alg.br, B(alg.borrow), "premise", B(premise), "lo", PClass(lo), "hi", PClass(hi), "rust-shift", rshift, "sameday-offchg",
          (IF ~sdo THEN "0" ELSE IF Abs(OffOf(DT(a.z, a.w, a.f)) - OffOf(DT(b.z, b.w, b.f))) >= 43200 THEN "dateline" ELSE "1")>>,
        IF p.k = "exc" THEN << <<"unexpected-exception", p.names>> >>
        ELSE V("in_months", p.in_months = 12 * c[1] + c[2], 12 * c[1] + c[2])
